@@ -68,11 +68,12 @@ Record st := mkSt {
   mod_qregs : list (string * Z);               (* module._qubit_registers *)
   mod_cregs : list (string * Z);
   num_qubits : Z;
-  num_clbits : Z
+  num_clbits : Z;
+  gstack : list string                        (* custom gates currently being expanded *)
 }.
 
 Definition init_st : st :=
-  mkSt [[]] [CGlobal] [] 0 0 [] [] [] [] [] [] [] [] [[]] [] [] [] [] 0 0.
+  mkSt [[]] [CGlobal] [] 0 0 [] [] [] [] [] [] [] [] [[]] [] [] [] [] 0 0 [].
 
 (* ---- association lists with Python dict semantics (assignment overwrites in place) ---- *)
 Section Alist.
@@ -104,23 +105,25 @@ Definition bget {V} := @aget bitref V bitref_eqb.
 Definition bset {V} := @aset bitref V bitref_eqb.
 
 (* ---- record updates ---- *)
-Definition with_scopes (s : st) x := mkSt x (ctxs s) (included s) (nqlabels s) (nclabels s) (alias_labels s) (qreg_sizes s) (alias_sizes s) (fn_sizes s) (fn_maps s) (creg_sizes s) (gates s) (subs s) (label_levels s) (qdepth s) (cdepth s) (mod_qregs s) (mod_cregs s) (num_qubits s) (num_clbits s).
-Definition with_ctxs (s : st) x := mkSt (scopes s) x (included s) (nqlabels s) (nclabels s) (alias_labels s) (qreg_sizes s) (alias_sizes s) (fn_sizes s) (fn_maps s) (creg_sizes s) (gates s) (subs s) (label_levels s) (qdepth s) (cdepth s) (mod_qregs s) (mod_cregs s) (num_qubits s) (num_clbits s).
-Definition with_included (s : st) x := mkSt (scopes s) (ctxs s) x (nqlabels s) (nclabels s) (alias_labels s) (qreg_sizes s) (alias_sizes s) (fn_sizes s) (fn_maps s) (creg_sizes s) (gates s) (subs s) (label_levels s) (qdepth s) (cdepth s) (mod_qregs s) (mod_cregs s) (num_qubits s) (num_clbits s).
-Definition with_nqlabels (s : st) x := mkSt (scopes s) (ctxs s) (included s) x (nclabels s) (alias_labels s) (qreg_sizes s) (alias_sizes s) (fn_sizes s) (fn_maps s) (creg_sizes s) (gates s) (subs s) (label_levels s) (qdepth s) (cdepth s) (mod_qregs s) (mod_cregs s) (num_qubits s) (num_clbits s).
-Definition with_nclabels (s : st) x := mkSt (scopes s) (ctxs s) (included s) (nqlabels s) x (alias_labels s) (qreg_sizes s) (alias_sizes s) (fn_sizes s) (fn_maps s) (creg_sizes s) (gates s) (subs s) (label_levels s) (qdepth s) (cdepth s) (mod_qregs s) (mod_cregs s) (num_qubits s) (num_clbits s).
-Definition with_alias_labels (s : st) x := mkSt (scopes s) (ctxs s) (included s) (nqlabels s) (nclabels s) x (qreg_sizes s) (alias_sizes s) (fn_sizes s) (fn_maps s) (creg_sizes s) (gates s) (subs s) (label_levels s) (qdepth s) (cdepth s) (mod_qregs s) (mod_cregs s) (num_qubits s) (num_clbits s).
-Definition with_qreg_sizes (s : st) x := mkSt (scopes s) (ctxs s) (included s) (nqlabels s) (nclabels s) (alias_labels s) x (alias_sizes s) (fn_sizes s) (fn_maps s) (creg_sizes s) (gates s) (subs s) (label_levels s) (qdepth s) (cdepth s) (mod_qregs s) (mod_cregs s) (num_qubits s) (num_clbits s).
-Definition with_alias_sizes (s : st) x := mkSt (scopes s) (ctxs s) (included s) (nqlabels s) (nclabels s) (alias_labels s) (qreg_sizes s) x (fn_sizes s) (fn_maps s) (creg_sizes s) (gates s) (subs s) (label_levels s) (qdepth s) (cdepth s) (mod_qregs s) (mod_cregs s) (num_qubits s) (num_clbits s).
-Definition with_fn (s : st) x y := mkSt (scopes s) (ctxs s) (included s) (nqlabels s) (nclabels s) (alias_labels s) (qreg_sizes s) (alias_sizes s) x y (creg_sizes s) (gates s) (subs s) (label_levels s) (qdepth s) (cdepth s) (mod_qregs s) (mod_cregs s) (num_qubits s) (num_clbits s).
-Definition with_creg_sizes (s : st) x := mkSt (scopes s) (ctxs s) (included s) (nqlabels s) (nclabels s) (alias_labels s) (qreg_sizes s) (alias_sizes s) (fn_sizes s) (fn_maps s) x (gates s) (subs s) (label_levels s) (qdepth s) (cdepth s) (mod_qregs s) (mod_cregs s) (num_qubits s) (num_clbits s).
-Definition with_gates (s : st) x := mkSt (scopes s) (ctxs s) (included s) (nqlabels s) (nclabels s) (alias_labels s) (qreg_sizes s) (alias_sizes s) (fn_sizes s) (fn_maps s) (creg_sizes s) x (subs s) (label_levels s) (qdepth s) (cdepth s) (mod_qregs s) (mod_cregs s) (num_qubits s) (num_clbits s).
-Definition with_subs (s : st) x := mkSt (scopes s) (ctxs s) (included s) (nqlabels s) (nclabels s) (alias_labels s) (qreg_sizes s) (alias_sizes s) (fn_sizes s) (fn_maps s) (creg_sizes s) (gates s) x (label_levels s) (qdepth s) (cdepth s) (mod_qregs s) (mod_cregs s) (num_qubits s) (num_clbits s).
-Definition with_levels (s : st) x := mkSt (scopes s) (ctxs s) (included s) (nqlabels s) (nclabels s) (alias_labels s) (qreg_sizes s) (alias_sizes s) (fn_sizes s) (fn_maps s) (creg_sizes s) (gates s) (subs s) x (qdepth s) (cdepth s) (mod_qregs s) (mod_cregs s) (num_qubits s) (num_clbits s).
-Definition with_qdepth (s : st) x := mkSt (scopes s) (ctxs s) (included s) (nqlabels s) (nclabels s) (alias_labels s) (qreg_sizes s) (alias_sizes s) (fn_sizes s) (fn_maps s) (creg_sizes s) (gates s) (subs s) (label_levels s) x (cdepth s) (mod_qregs s) (mod_cregs s) (num_qubits s) (num_clbits s).
-Definition with_cdepth (s : st) x := mkSt (scopes s) (ctxs s) (included s) (nqlabels s) (nclabels s) (alias_labels s) (qreg_sizes s) (alias_sizes s) (fn_sizes s) (fn_maps s) (creg_sizes s) (gates s) (subs s) (label_levels s) (qdepth s) x (mod_qregs s) (mod_cregs s) (num_qubits s) (num_clbits s).
-Definition with_modq (s : st) x n := mkSt (scopes s) (ctxs s) (included s) (nqlabels s) (nclabels s) (alias_labels s) (qreg_sizes s) (alias_sizes s) (fn_sizes s) (fn_maps s) (creg_sizes s) (gates s) (subs s) (label_levels s) (qdepth s) (cdepth s) x (mod_cregs s) n (num_clbits s).
-Definition with_modc (s : st) x n := mkSt (scopes s) (ctxs s) (included s) (nqlabels s) (nclabels s) (alias_labels s) (qreg_sizes s) (alias_sizes s) (fn_sizes s) (fn_maps s) (creg_sizes s) (gates s) (subs s) (label_levels s) (qdepth s) (cdepth s) (mod_qregs s) x (num_qubits s) n.
+Definition with_scopes (s : st) x := mkSt x (ctxs s) (included s) (nqlabels s) (nclabels s) (alias_labels s) (qreg_sizes s) (alias_sizes s) (fn_sizes s) (fn_maps s) (creg_sizes s) (gates s) (subs s) (label_levels s) (qdepth s) (cdepth s) (mod_qregs s) (mod_cregs s) (num_qubits s) (num_clbits s) (gstack s).
+Definition with_ctxs (s : st) x := mkSt (scopes s) x (included s) (nqlabels s) (nclabels s) (alias_labels s) (qreg_sizes s) (alias_sizes s) (fn_sizes s) (fn_maps s) (creg_sizes s) (gates s) (subs s) (label_levels s) (qdepth s) (cdepth s) (mod_qregs s) (mod_cregs s) (num_qubits s) (num_clbits s) (gstack s).
+Definition with_included (s : st) x := mkSt (scopes s) (ctxs s) x (nqlabels s) (nclabels s) (alias_labels s) (qreg_sizes s) (alias_sizes s) (fn_sizes s) (fn_maps s) (creg_sizes s) (gates s) (subs s) (label_levels s) (qdepth s) (cdepth s) (mod_qregs s) (mod_cregs s) (num_qubits s) (num_clbits s) (gstack s).
+Definition with_nqlabels (s : st) x := mkSt (scopes s) (ctxs s) (included s) x (nclabels s) (alias_labels s) (qreg_sizes s) (alias_sizes s) (fn_sizes s) (fn_maps s) (creg_sizes s) (gates s) (subs s) (label_levels s) (qdepth s) (cdepth s) (mod_qregs s) (mod_cregs s) (num_qubits s) (num_clbits s) (gstack s).
+Definition with_nclabels (s : st) x := mkSt (scopes s) (ctxs s) (included s) (nqlabels s) x (alias_labels s) (qreg_sizes s) (alias_sizes s) (fn_sizes s) (fn_maps s) (creg_sizes s) (gates s) (subs s) (label_levels s) (qdepth s) (cdepth s) (mod_qregs s) (mod_cregs s) (num_qubits s) (num_clbits s) (gstack s).
+Definition with_alias_labels (s : st) x := mkSt (scopes s) (ctxs s) (included s) (nqlabels s) (nclabels s) x (qreg_sizes s) (alias_sizes s) (fn_sizes s) (fn_maps s) (creg_sizes s) (gates s) (subs s) (label_levels s) (qdepth s) (cdepth s) (mod_qregs s) (mod_cregs s) (num_qubits s) (num_clbits s) (gstack s).
+Definition with_qreg_sizes (s : st) x := mkSt (scopes s) (ctxs s) (included s) (nqlabels s) (nclabels s) (alias_labels s) x (alias_sizes s) (fn_sizes s) (fn_maps s) (creg_sizes s) (gates s) (subs s) (label_levels s) (qdepth s) (cdepth s) (mod_qregs s) (mod_cregs s) (num_qubits s) (num_clbits s) (gstack s).
+Definition with_alias_sizes (s : st) x := mkSt (scopes s) (ctxs s) (included s) (nqlabels s) (nclabels s) (alias_labels s) (qreg_sizes s) x (fn_sizes s) (fn_maps s) (creg_sizes s) (gates s) (subs s) (label_levels s) (qdepth s) (cdepth s) (mod_qregs s) (mod_cregs s) (num_qubits s) (num_clbits s) (gstack s).
+Definition with_fn (s : st) x y := mkSt (scopes s) (ctxs s) (included s) (nqlabels s) (nclabels s) (alias_labels s) (qreg_sizes s) (alias_sizes s) x y (creg_sizes s) (gates s) (subs s) (label_levels s) (qdepth s) (cdepth s) (mod_qregs s) (mod_cregs s) (num_qubits s) (num_clbits s) (gstack s).
+Definition with_creg_sizes (s : st) x := mkSt (scopes s) (ctxs s) (included s) (nqlabels s) (nclabels s) (alias_labels s) (qreg_sizes s) (alias_sizes s) (fn_sizes s) (fn_maps s) x (gates s) (subs s) (label_levels s) (qdepth s) (cdepth s) (mod_qregs s) (mod_cregs s) (num_qubits s) (num_clbits s) (gstack s).
+Definition with_gates (s : st) x := mkSt (scopes s) (ctxs s) (included s) (nqlabels s) (nclabels s) (alias_labels s) (qreg_sizes s) (alias_sizes s) (fn_sizes s) (fn_maps s) (creg_sizes s) x (subs s) (label_levels s) (qdepth s) (cdepth s) (mod_qregs s) (mod_cregs s) (num_qubits s) (num_clbits s) (gstack s).
+Definition with_subs (s : st) x := mkSt (scopes s) (ctxs s) (included s) (nqlabels s) (nclabels s) (alias_labels s) (qreg_sizes s) (alias_sizes s) (fn_sizes s) (fn_maps s) (creg_sizes s) (gates s) x (label_levels s) (qdepth s) (cdepth s) (mod_qregs s) (mod_cregs s) (num_qubits s) (num_clbits s) (gstack s).
+Definition with_levels (s : st) x := mkSt (scopes s) (ctxs s) (included s) (nqlabels s) (nclabels s) (alias_labels s) (qreg_sizes s) (alias_sizes s) (fn_sizes s) (fn_maps s) (creg_sizes s) (gates s) (subs s) x (qdepth s) (cdepth s) (mod_qregs s) (mod_cregs s) (num_qubits s) (num_clbits s) (gstack s).
+Definition with_qdepth (s : st) x := mkSt (scopes s) (ctxs s) (included s) (nqlabels s) (nclabels s) (alias_labels s) (qreg_sizes s) (alias_sizes s) (fn_sizes s) (fn_maps s) (creg_sizes s) (gates s) (subs s) (label_levels s) x (cdepth s) (mod_qregs s) (mod_cregs s) (num_qubits s) (num_clbits s) (gstack s).
+Definition with_cdepth (s : st) x := mkSt (scopes s) (ctxs s) (included s) (nqlabels s) (nclabels s) (alias_labels s) (qreg_sizes s) (alias_sizes s) (fn_sizes s) (fn_maps s) (creg_sizes s) (gates s) (subs s) (label_levels s) (qdepth s) x (mod_qregs s) (mod_cregs s) (num_qubits s) (num_clbits s) (gstack s).
+Definition with_modq (s : st) x n := mkSt (scopes s) (ctxs s) (included s) (nqlabels s) (nclabels s) (alias_labels s) (qreg_sizes s) (alias_sizes s) (fn_sizes s) (fn_maps s) (creg_sizes s) (gates s) (subs s) (label_levels s) (qdepth s) (cdepth s) x (mod_cregs s) n (num_clbits s) (gstack s).
+Definition with_modc (s : st) x n := mkSt (scopes s) (ctxs s) (included s) (nqlabels s) (nclabels s) (alias_labels s) (qreg_sizes s) (alias_sizes s) (fn_sizes s) (fn_maps s) (creg_sizes s) (gates s) (subs s) (label_levels s) (qdepth s) (cdepth s) (mod_qregs s) x (num_qubits s) n (gstack s).
+
+Definition with_gstack (s : st) x := mkSt (scopes s) (ctxs s) (included s) (nqlabels s) (nclabels s) (alias_labels s) (qreg_sizes s) (alias_sizes s) (fn_sizes s) (fn_maps s) (creg_sizes s) (gates s) (subs s) (label_levels s) (qdepth s) (cdepth s) (mod_qregs s) (mod_cregs s) (num_qubits s) (num_clbits s) x.
 
 (* ---- scope machinery ---- *)
 Definition top_ctx (s : st) : ctx := hd CGlobal (ctxs s).
